@@ -148,6 +148,22 @@ def p_instances(fs):
                 return 'instances (%s) of one name raise ValueError' % how
         except Exception as e:  # noqa
             return 'instances (%s): find_latest_version raises %s' % (how, type(e).__name__)
+        if len(names) == 1:
+            # the ordering of the archives themselves (what sorted() and max() use) ranks by version
+            try:
+                import copy
+                import pickle
+                top = sorted(ars)[-1]
+                top2 = max(ars)
+                for a in ars:
+                    if a.version.compare(top.version) > 0 or a.version.compare(top2.version) > 0:
+                        return 'instances (%s): sorted()/max() put %s last, %s is later' % (how, top.version, a.version)
+                a0 = ars[0]
+                for hw, c in (('a deep copy', copy.deepcopy(a0)), ('an unpickled copy', pickle.loads(pickle.dumps(a0)))):
+                    if c != a0 or c.version.compare(a0.version) != 0 or c.to_dict() != a0.to_dict() or (c.name, c.architecture, c.original_filename) != (a0.name, a0.architecture, a0.original_filename):
+                        return 'instances (%s): %s of %r is %r' % (how, hw, a0, c)
+            except Exception as e:  # noqa
+                return 'instances (%s): sorting / copying archives raises %s' % (how, type(e).__name__)
         try:
             rs = package.find_latest_versions(list(ars))
         except Exception as e:  # noqa
